@@ -57,9 +57,9 @@ static Obs run_check(void (*body)()) {
 enum { EXP_UNJUDGED = -1, EXP_FAIL = 0, EXP_PASS = 1 };
 
 // expect: what the predicate says; relational: CHECK_COMPARE family (a passing one is not counted)
-static void judge(vf::Ctx& c, const std::string& check, const std::string& cls, int expect, const Obs& o, bool relational = false) {
-    char buf[160];
-    snprintf(buf, sizeof buf, "failures=%zu checks=%zu continued=%d", o.failures, o.checks, (int) o.continued);
+static void judge(vf::Ctx& c, const std::string& check, const std::string& cls, int expect, const Obs& o, bool relational = false, const char* extra = "") {
+    char buf[320];
+    snprintf(buf, sizeof buf, "failures=%zu checks=%zu continued=%d%s%s", o.failures, o.checks, (int) o.continued, *extra ? " " : "", extra);
     if (o.failures > 1) c.violation("multi-failure:" + check, std::string("one check recorded more than one failure: ") + buf);
     if (expect == EXP_PASS && o.failures != 0) c.violation("wrong-fail:" + check + ":" + cls, std::string("predicate is true but the check failed: ") + buf);
     if (expect == EXP_FAIL && o.failures == 0) c.violation("wrong-pass:" + check + ":" + cls, std::string("predicate is false but the check passed: ") + buf);
@@ -511,25 +511,23 @@ static std::string fold(const char* s) { std::string o; for (; *s; s++) o += (ch
 // exact-size heap copy, so that a read past the terminator is an ASan report
 static char* dupz(const char* s, size_t len) { if (!s) return nullptr; char* p = (char*) malloc(len + 1); memcpy(p, s, len); p[len] = 0; return p; }
 
-static void run_string_case(vf::Ctx& c, const StrCheck& k, const char* e0, const char* a0, size_t n) {
-    std::string name = k.name;
-    bool en = e0 == nullptr, an = a0 == nullptr;
-    std::string es = en ? "" : e0, as = an ? "" : a0;
-    c.begin([=] { vf::J j; j.k("check", name); if (en) j.raw("expected", "null"); else j.k("expected", es); if (an) j.raw("actual", "null"); else j.k("actual", as);
-                  if (k.kind == SK_NEQ) j.k("length", (unsigned long) n); return j.str(); });
-    char* e = dupz(e0, es.size()); char* a = dupz(a0, as.size());
+// what the property says about one string check on the operand VALUES (pure function of the contents)
+struct StrExp { int exp; std::string cls; bool caseonly; };
+static StrExp string_expect(int kind, const char* e, const char* a, size_t n) {
+    bool en = e == nullptr, an = a == nullptr;
+    std::string es = en ? "" : e, as = an ? "" : a;
     int exp; std::string cls;
     bool caseonly = !en && !an && es != as && fold(e) == fold(a);
-    if (k.kind == SK_SSEQ) { exp = es == as ? EXP_PASS : EXP_FAIL; cls = (en || an) ? "null-as-empty" : exp ? "equal" : caseonly ? "case-only-difference" : "different"; }   // SimpleString(NULL) is ""
-    else if (en && an) { cls = "both-null"; exp = (k.kind == SK_CONTAINS || k.kind == SK_NOCASE_CONTAINS) ? EXP_UNJUDGED : EXP_PASS; }
+    if (kind == SK_SSEQ) { exp = es == as ? EXP_PASS : EXP_FAIL; cls = (en || an) ? "null-as-empty" : exp ? "equal" : caseonly ? "case-only-difference" : "different"; }   // SimpleString(NULL) is ""
+    else if (en && an) { cls = "both-null"; exp = (kind == SK_CONTAINS || kind == SK_NOCASE_CONTAINS) ? EXP_UNJUDGED : EXP_PASS; }
     else if (en || an) {
         cls = en ? "null-expected" : "null-actual";
-        if (k.kind == SK_CONTAINS || k.kind == SK_NOCASE_CONTAINS) exp = EXP_UNJUDGED;          // the statement defines NULL for equality only
-        else if (k.kind == SK_NEQ && n == 0) { exp = EXP_UNJUDGED; cls += ":length-0"; }         // zero-length rule is stated for blocks only
+        if (kind == SK_CONTAINS || kind == SK_NOCASE_CONTAINS) exp = EXP_UNJUDGED;          // the statement defines NULL for equality only
+        else if (kind == SK_NEQ && n == 0) { exp = EXP_UNJUDGED; cls += ":length-0"; }         // zero-length rule is stated for blocks only
         else exp = EXP_FAIL;                                                                     // NULL equals only NULL
     } else {
         bool p;
-        switch (k.kind) {
+        switch (kind) {
         case SK_EQ: p = strcmp(e, a) == 0; break;
         case SK_NEQ: p = strncmp(e, a, n) == 0; break;
         case SK_NOCASE: p = fold(e) == fold(a); break;
@@ -545,8 +543,20 @@ static void run_string_case(vf::Ctx& c, const StrCheck& k, const char* e0, const
         else if (as.find(es) != std::string::npos) cls = "expected-inside-actual";
         else if (fold(a).find(fold(e)) != std::string::npos) cls = "expected-inside-actual-nocase";
         else cls = "different";
-        if (k.kind == SK_NEQ) cls += n == 0 ? ":length-0" : n <= common ? ":length-within-common-prefix" : n == common + 1 ? ":length-at-first-difference" : ":length-beyond";
+        if (kind == SK_NEQ) cls += n == 0 ? ":length-0" : n <= common ? ":length-within-common-prefix" : n == common + 1 ? ":length-at-first-difference" : ":length-beyond";
     }
+    StrExp r = { exp, cls, caseonly };
+    return r;
+}
+static void run_string_case(vf::Ctx& c, const StrCheck& k, const char* e0, const char* a0, size_t n) {
+    std::string name = k.name;
+    bool en = e0 == nullptr, an = a0 == nullptr;
+    std::string es = en ? "" : e0, as = an ? "" : a0;
+    c.begin([=] { vf::J j; j.k("check", name); if (en) j.raw("expected", "null"); else j.k("expected", es); if (an) j.raw("actual", "null"); else j.k("actual", as);
+                  if (k.kind == SK_NEQ) j.k("length", (unsigned long) n); return j.str(); });
+    char* e = dupz(e0, es.size()); char* a = dupz(a0, as.size());
+    StrExp x = string_expect(k.kind, e, a, n);
+    int exp = x.exp; std::string cls = x.cls; bool caseonly = x.caseonly;
     G.sa = e; G.sb = a; G.n = n;
     Obs o = run_check(k.body);
     G.sa = G.sb = nullptr;
